@@ -130,6 +130,9 @@ def build_psy(kerns, tmpdir):
         return "parse", str(err)
     except GenerationError as err:
         return "gen", str(err)
+    except Exception as err:  # pylint: disable=broad-except
+        # e.g. ValueError from FortranReader for an accepted user-defined bound such as '{start}{stop}'
+        return "error:" + type(err).__name__, str(err)
     return "ok", psy
 
 
@@ -358,29 +361,37 @@ def run_case(case, repo):
             pt = c25_gen.POINTS.index(k[1]) if k[1] in c25_gen.POINTS else 5
             field_pt[f"w{n}_fld"] = pt
             field_pt[f"r{n}_fld"] = pt
-        for st in case["steps"]:
-            res = apply_step(schedule, st)
-            if st[0] in "CF":
-                out["steps"].append(bool(res))
-                out["model_steps"].append(st)
-            elif res:
-                out["model_steps"].append(st)
-            if res:
-                out["accepted"].append(st)
-                if st[0] == "C":
-                    out["cb"] = True
+        weird = False
+        for a, r in zip(case["adds"], out["adds"]):
+            f = a["line"].split(":")
+            if r == "ok" and len(f) == 7 and any(c25_gen.parse_bound(b) is None for b in f[3:]):
+                weird = True
         try:
+            for st in case["steps"]:
+                res = apply_step(schedule, st)
+                if st[0] in "CF":
+                    out["steps"].append(bool(res))
+                    out["model_steps"].append(st)
+                elif res:
+                    out["model_steps"].append(st)
+                if res:
+                    out["accepted"].append(st)
+                    if st[0] == "C":
+                        out["cb"] = True
             finish_acc(schedule)
             schedule.root.lower_to_language_level()
         except (GenerationError, InternalError) as err:
             out["lowering"] = "refused:" + type(err).__name__ + ":" + str(err)[:200]
             return out
+        except Exception as err:  # pylint: disable=broad-except
+            if not weird:
+                raise
+            out["lowering"] = "error:" + type(err).__name__ + " (accepted bound outside the model grammar)"
+            return out
         out["lowering"] = "ok"
-        for a, r in zip(case["adds"], out["adds"]):
-            f = a["line"].split(":")
-            if r == "ok" and len(f) == 7 and any(c25_gen.parse_bound(b) is None for b in f[3:]):
-                out["lowering"] = "ok (not interpreted: accepted bound outside the model grammar)"
-                return out
+        if weird:
+            out["lowering"] = "ok (not interpreted: accepted bound outside the model grammar)"
+            return out
         out["traces"] = []
         for env in case["envs"]:
             it = Interp(env, field_pt)
